@@ -273,6 +273,10 @@ class Parts(object):
             # dates no calendar has (29 February 2021, hour 24): declared all the same
             yield {'g': g, 'o': {'revs': [('202102290000Z', 'leap'), ('202001010000Z', 'fine')]}, 'tag': 'impossible-date'}
             yield {'g': g, 'o': {'revs': [('202001012400Z', 'midnight')]}, 'tag': 'impossible-date'}
+            # two clauses carrying one date (a change log amended within the minute): each clause has its entry
+            yield {'g': g, 'o': {'revs': [('202001010000Z', 'later'), ('202001010000Z', 'earlier')]}, 'tag': 'same-date'}
+            yield {'g': g, 'o': {'revs': [('202002010000Z', 'c'), ('202001010000Z', 'b'), ('202002010000Z', 'a')]}, 'tag': 'same-date'}
+            yield {'g': g, 'o': {'revs': [('0001010000Z', 'short'), ('200001010000Z', 'long')]}, 'tag': 'same-date'}
         elif g == 'tc':
             for disp, ref in itertools.product([None, '255a', ''], [None, 'R.']):
                 yield {'g': g, 'o': {'display': disp, 'ref': ref}}
